@@ -275,6 +275,27 @@ class Harness:
         return w.last
 
 
+def redeclare_case(case):
+    """A name is declared with one value, built, removed, declared again with another value (possibly equal element by
+    element but of another kind) and built again - in the same list and in a second list: each build yields the values
+    of the declaration current at that moment."""
+    h = Harness('empty', [case['v1'], case['v2']])
+    w = hbfs.fresh(h)
+    n = 0
+    for op in (['add', 'pa', case['v1']], ['build'], ['remove', 'pa'], ['add', 'pa', case['v2']], ['build'],
+               ['add', 'pb', case['v1']], ['build']):
+        h.apply(w, op)
+        h.check(w)
+        n += 1
+    other = ParameterList()
+    other.add_parameter('pa', VALUES[case['v1']]())
+    got = other.build()
+    w2 = World()
+    w2.decl = [('pa', case['v1'])]
+    h._compare(w2, got, product(w2.decl), 'build of a second list declaring the same name')
+    return n
+
+
 def many_parameters_case(case):
     """A declaration with very many parameters (most of them single-valued): the product still has every name, in
     declaration order, and exactly the combinations of the few multi-valued ones."""
@@ -372,6 +393,21 @@ def run(ctx):
             ctx.report(case, v)
             return
     ctx.leg('many_parameters', note='1500 (thorough also 6000) declared parameters')
+    kinds = [k for k in VALUES if k != 'empty']
+    nr = 0
+    for v1 in kinds:
+        for v2 in kinds:
+            if v1 != v2 and not ctx.small:
+                case = {'leg': 'redeclare', 'v1': v1, 'v2': v2}
+                ctx.traces += 1
+                nr += 1
+                try:
+                    ctx.transitions += hbfs._guard(redeclare_case, case)
+                except Violation as v:
+                    ctx.report(case, v)
+                    return
+    ctx.leg('redeclare', cases=nr, note='every ordered pair of value kinds under one name: declare, build, remove, '
+                                        'declare the other, build')
     for kind in ('list', 'tuple'):
         for items in (1, 2, 5, 60):
             case = {'leg': 'churn_same', 'kind': kind, 'items': items, 'rounds': 60}
@@ -414,6 +450,9 @@ def run(ctx):
 
 
 def replay(case):
+    if case['leg'] == 'redeclare':
+        hbfs._guard(redeclare_case, case)
+        return
     if case['leg'] == 'many_parameters':
         hbfs._guard(many_parameters_case, case)
         return
